@@ -57,7 +57,7 @@ add('C19', 'exploration', 'exhaustive enumeration of the flag x report-to x outc
     'Administrative-record inputs are not generated; for the no-route outcome only the "only if" direction is judged; the fake convergence layer can be made to fail at hand-over for one next hop.',
     'DESIGN.md section 3 C19')
 add('C06', 'exploration', 'exhaustive permutation enumeration for small fragment sets + property-based generation of fragmentations, duplicates and interleavings; interval-coverage reference model',
-    'All arrival permutations (with a duplicate at every position) of enumerated fragmentations and generated larger ones (uneven, overlapping, nested, interleaved with a look-alike bundle, fragments from the independent encoder or from the repository own fragmentation) are delivered to a real agent; application deliveries are compared with an interval-coverage model after every arrival.',
+    'All arrival permutations (with a duplicate at every position) of enumerated fragmentations and generated larger ones (uneven, overlapping, nested, interleaved with a look-alike bundle, fragments from the independent encoder or from the repository own fragmentation) are delivered to a real agent; application deliveries are compared with an interval-coverage model after every arrival.  Stack cases: bundles originated at a whole node travel over two hops of real convergence layers (TCPCL / UDPCL, each hop with its own route MTU and the UDPCL agents with their own MTU, so the origin fragments and fragments are forwarded as they are) and must be delivered at the destination exactly once with the original payload and flags.',
     'Fragments of one bundle are cut from one payload and agree on the total length.',
     'DESIGN.md section 3 C06')
 add('C03', 'fault_enumeration', 'differential testing against an independent COSE/AAD implementation under enumerated field-level alterations and exhaustive single-bit flips; property-based variation of bundles, scopes and algorithms',
